@@ -253,9 +253,28 @@ func runC16(c *runCtx) {
 			res.fail("payload-findings:"+key, "a documented payload is not reported with its class and severity in this position (or something else is)", wit,
 				map[string]any{"want": sortedCopy(want), "got": sortedCopy(got)})
 		}
+		// every result is produced first and read afterwards, as a caller that keeps its results does: a result must not
+		// change when further scans (of this tree, at other thresholds) run
+		held := map[security.Severity]*security.ScanResult{}
+		heldSnap := map[security.Severity]string{}
+		snapOf := func(r *security.ScanResult) string {
+			return strings.Join(findingsKey(r), ",") + fmt.Sprintf("|%d,%d,%d,%d,%d", r.TotalCount, r.CriticalCount, r.HighCount, r.MediumCount, r.LowCount)
+		}
 		for _, sv := range sevs {
 			sc, _ := security.NewScannerWithSeverity(sv)
-			r := sc.Scan(tree)
+			held[sv] = sc.Scan(tree)
+			heldSnap[sv] = snapOf(held[sv])
+		}
+		if snapOf(base) != strings.Join(got, ",")+fmt.Sprintf("|%d,%d,%d,%d,%d", base.TotalCount, base.CriticalCount, base.HighCount, base.MediumCount, base.LowCount) {
+			res.fail("held-scan-result-modified", "a scan result kept by the caller changed when the same tree was scanned again", wit, map[string]any{"first": got, "now": findingsKey(base)})
+		}
+		for _, sv := range sevs {
+			if now := snapOf(held[sv]); now != heldSnap[sv] {
+				res.fail("held-scan-result-modified", "a scan result kept by the caller changed when the same tree was scanned again (at another threshold)", wit, map[string]any{"threshold": sv, "first": heldSnap[sv], "now": now})
+			}
+		}
+		for _, sv := range sevs {
+			r := held[sv]
 			var wantF []string
 			for _, f := range got {
 				if rank[strings.SplitN(f, ":", 2)[1]] >= rank[string(sv)] {
@@ -393,9 +412,24 @@ func runC16(c *runCtx) {
 			isPatternText[t] = true
 		}
 		sevSeen := map[string]map[string]bool{}
+		type heldText struct {
+			text string
+			r    *security.ScanResult
+			snap string
+		}
+		var heldTexts []heldText
+		defer func() {
+			for _, h := range heldTexts {
+				if now := strings.Join(findingsKey(h.r), ",") + fmt.Sprint("|", h.r.TotalCount, h.r.CriticalCount, h.r.HighCount, h.r.MediumCount, h.r.LowCount); now != h.snap {
+					res.fail("held-scan-result-modified", "a ScanSQL result kept by the caller changed when other texts were scanned", map[string]any{"text": h.text}, map[string]any{"first": h.snap, "now": now})
+					break
+				}
+			}
+		}()
 		for _, t := range append(append([]string{}, texts...), patternTexts...) {
 			baseR := security.NewScanner().ScanSQL(t)
 			base := findingsKey(baseR)
+			heldTexts = append(heldTexts, heldText{t, baseR, strings.Join(base, ",") + fmt.Sprint("|", baseR.TotalCount, baseR.CriticalCount, baseR.HighCount, baseR.MediumCount, baseR.LowCount)})
 			res.count("scansql|"+t, true)
 			if len(base) == 0 {
 				res.stat("scansql-canonical-unflagged")
